@@ -136,9 +136,10 @@ class FnStub:
 class AbstractStmt:
     """A statement of the block whose translation is abstracted: it (re)defines `defs`."""
 
-    def __init__(self, defs, label):
+    def __init__(self, defs, label, aliases=None):
         self.defs = list(defs)
         self.label = label
+        self.aliases = dict(aliases or {})  # var -> outer variable whose value it is bound to (`y = t`)
         self.lineno = 1
         self.col_offset = 0
 
@@ -167,8 +168,12 @@ def world(ctx, assigned, live_out, exposed=None):
         fn = slf.fields["_current_fn"]
         fn.ghost_nodes.append(entry)
         if entry["op"] == "Identity" and entry["inputs"]:
+            # a copy emitted by _emit_copy(value, python_var) stands for python_var (the suggested name); copies of
+            # anonymous values inherit the variable of their source
+            cands = dict(log.names)
             for v in entry["out_values"]:
-                v.fields["ghost_var"] = var_of(entry["inputs"][0])
+                c = cands.get(v.fields["name"])
+                v.fields["ghost_var"] = c if isinstance(c, str) and c in ("a", "b", "c", "cond", "n") else var_of(entry["inputs"][0])
         return r
     I.models[C._emit] = m_emit
 
@@ -185,6 +190,11 @@ def world(ctx, assigned, live_out, exposed=None):
         if not isinstance(node, AbstractStmt):
             raise AssertionError(f"unexpected statement {node!r}")
         for var in node.defs:
+            if var in node.aliases:
+                # `var = other`: binds the name to the existing value, nothing is emitted
+                sv0 = interp.call(interp.getattr(slf, "_lookup"), [node.aliases[var], CM.real_info()])
+                interp.call(interp.getattr(slf, "_bind"), [var, sv0])
+                continue
             name = interp.call(interp.getattr(slf, "_generate_unique_name"), [var])
             v = interp.call(interp.getattr(slf, "_emit"), [[name], "Op_" + node.label, []])
             v.fields["ghost_var"] = var
@@ -200,6 +210,11 @@ def world(ctx, assigned, live_out, exposed=None):
     def m_make_value(interp, name, typeinfo, info):
         v = SObj(ir.Value, "param")
         v.fields.update(name=name, ghost_node=None, ghost_var=None, type=None)
+
+        def producer():
+            raise AssertionError
+        interp.models[producer] = lambda i2: None  # a graph/subgraph input has no producer
+        v.fields["producer"] = producer
         return v
     I.models[conv.make_value] = m_make_value
     I.models[ir.AttrGraph] = lambda interp, name, g: ("graph-attr", name, g)
@@ -275,7 +290,12 @@ def run_if(ctx, case):
     bind_outer(I, self, top, outer)
     stmt = SObj(ast.If, "ifstmt")
     test = SObj(ast.Name, "test")
-    stmt.fields.update(test=test, body=[AbstractStmt(then_defs, "then")] if then_defs else [AbstractStmt([], "then")],
+    aliases = {}
+    if then_defs and ctx.choose(2, "then-branch aliases an outer computed value") == 1:
+        aliases[then_defs[0]] = "t_outer"
+        bind_outer(I, self, top, ["t_outer"])
+    ctx.ghost["if_alias"] = bool(aliases)
+    stmt.fields.update(test=test, body=[AbstractStmt(then_defs, "then", aliases)] if then_defs else [AbstractStmt([], "then")],
                        orelse=[AbstractStmt(else_defs, "else")] if else_defs else [AbstractStmt([], "else")],
                        lineno=1, col_offset=0)
     C = CM._conv_cls()
@@ -328,7 +348,7 @@ def s_if(ctx, k=2):
         inside = all(o.fields["name"] in g.assigned_names for o in g.outputs)
         ctx.check(f"C02.converter.if.{nm}_outputs_produced_inside_the_subgraph", inside, CL_SCOPE)
     # determinism (2-safety): every choice of iteration orders must emit the structure of the first explored one
-    key = ("if", repr(case))
+    key = ("if", repr(case), ctx.ghost.get("if_alias"))
     canon = _CANON.setdefault(key, struct1)
     ctx.check("C14.converter.if.translation_independent_of_set_iteration_order", struct1 == canon, CL_DET)
 
